@@ -399,6 +399,21 @@ func runDB(args []string, in *bufio.Scanner, out *bufio.Writer) {
 					}
 					return "ok:" + strings.Join(es, ";")
 				}
+			case "wset":
+				// write set of an open transaction, oldest first: kind:rid1[:rid2]  (hook H3)
+				txn := s.txns[rest]
+				if txn == nil {
+					return "err:notxn"
+				}
+				var es []string
+				for _, w := range txn.VerifWriteSet() {
+					e := fmt.Sprintf("%s:%d.%d", []string{"I", "D", "U"}[w.Kind], w.RID1.PageID, w.RID1.SlotNum)
+					if w.HasR2 {
+						e += fmt.Sprintf(":%d.%d", w.RID2.PageID, w.RID2.SlotNum)
+					}
+					es = append(es, e)
+				}
+				return "ok:" + strings.Join(es, ";")
 			case "tables":
 				var ts []string
 				for _, tm := range s.db.GetCatalogForTesting().GetAllTables() {
